@@ -3,6 +3,7 @@
 -/
 import SV.Misc.UnitProofs
 import SV.Misc.UnitReal
+import SV.GenProofs.Config
 namespace SV.Props.C16
 open SV SV.Unit SV.UnitReal
 
@@ -46,5 +47,9 @@ theorem unit_over_fifo (size n : Nat) (hn : 1 ≤ n) (rops : List ROp) (k : Byte
 theorem real_unit_rejected_put_not_served {C : Cacher} (L : C.Lawful) (u : RU C) (k v : Bytes) (hi : C.Inv u.cache)
     (h : RCoherent u) : ((u.put k v true).1.get k false).2 = alookup k u.db :=
   realUnit_rejected_put_not_served L u k v hi h
+
+/-- the factory refuses a unit whose persister batch is larger than its cache (translated from `NewStorageUnitFromConf`) -/
+theorem factory_refuses_batch_larger_than_cache (maxBatch capacity : Nat) (h : Gen.unitConfRejected maxBatch capacity = false) :
+    maxBatch ≤ capacity := GenProofs.unitConf_accepted maxBatch capacity h
 
 end SV.Props.C16
